@@ -2,4 +2,4 @@
    Z, N, positive, nat stay the extracted Coq datatypes; no Extract Constant anywhere) *)
 Require Import Base Float Strings Num Builtins Interp Machine Spec Lex Utf Utf16 CountDef HeapFacts Refine1 Refine2 RunG Pure IOSpec Cli.
 From Coq Require Import ExtrOcamlBasic.
-Extraction "model.ml" run_main parse_text agree normalize tokenize encode decode rounding utf8_encode utf8_decode utf16_encode utf16_decode utf16_encode_bom utf16_decode_bom utf32_encode utf32_decode utf32_encode_bom utf32_decode_bom trace_main cli_run run_main_fs.
+Extraction "model.ml" run_main parse_text agree normalize tokenize encode decode rounding utf8_encode utf8_decode utf16_encode utf16_decode utf16_encode_bom utf16_decode_bom utf32_encode utf32_decode utf32_encode_bom utf32_decode_bom trace_main cli_run run_main_fs run_main_many.
